@@ -315,5 +315,6 @@ func main() {
 	writeIfChanged(filepath.Join(out, "CrcTable.v"), p.emitCrcTable())
 	writeIfChanged(filepath.Join(out, "Types.v"), p.emitTypes())
 	writeIfChanged(filepath.Join(out, "Preds.v"), p.emitPreds())
+	writeIfChanged(filepath.Join(out, "ParseGen.v"), p.emitParseGen())
 	writeIfChanged(filepath.Join(out, "Alias.v"), p.emitAlias()+p.emitGlobals())
 }
